@@ -116,8 +116,16 @@ package gcsemu
 // handleGcsCopy (C15/C20/C07): the path "<f1>/rewriteTo/b/<b2>/o/<f2>" is split with every index in bounds for
 // every input; the callback invariant is an assertion at the locks.Run call: the key that is locked,
 // lockName(b2, f2), and the arguments of Store.Copy are a decomposition of the request path.
+// C10/C15 "a copy destination is a content write": the metadata reported for the destination is only read right after a
+// successful Store.Copy of exactly the request's source onto its destination (ghost cpLast: outcome of the thread's
+// last Store.Copy, assigned by ghost code after the call).
+//@ ghostvar cpLast int protocol
 //@ func (g *GcsEmu) handleGcsCopy
-//@   property C15 C20 C07
+//@   property C15 C20 C07 C10
+//@   modifies ghost(cpLast)
+//@   callsite (Store).Copy requires arg1 == b1 && arg2 == f1 && arg3 == b2 && arg4 == f2
+//@   callsite (Store).Copy ghost cpLast == ((result0 && result1 == nil) ? 1 : 0)
+//@   callsite (Store).GetMeta requires cpLast == 1 && arg2 == b2 && arg3 == f2
 //@   requires w != nil
 //@   requires !isnil(ctx)
 //@   modifies *, ghost(jsonBodies)
